@@ -1,4 +1,5 @@
 import Xsm.Proofs.Termination
+import Xsm.Proofs.Fifo
 /-!
 # C13 — bounded self-feeding chains: `start()` and `send()` return
 
@@ -43,20 +44,27 @@ Vocabulary (from `Xsm/Proofs/Termination.lean`):
 * `transientSteps` / `transientCut`, `drainSteps` / `drainCut` — instrumented twins of `transientLoop`
   and `drainLoop` (same recursion): the number of iterations, and whether the loop was cut (counter
   exhausted with work pending); `transientPending` — another settling iteration would do something;
-* `asyncProcess` — the processing branch of `asyncStep`; `Idle m s` — empty queue and
-  `raiseDepth ≤ maxIterations`; `RunOK m s` — status is "running" / "done" / "stopped" and a running
-  interpreter is idle; `asyncStartSettled m u s` — the state `start()` hands to the run loop.
+* `asyncProcess` — what the run loop does with an event it processes (macrostep, settling, error
+  logging, end-of-chain test; defined with the model), `asyncBase m s` — the state it is processed in
+  (`s`, purged if the breaker fired); `Idle m s` — empty queue and `raiseDepth ≤ maxIterations`;
+  `Quiet s` — empty queue and `raiseDepth = 0`; `RunOK m s` — status is "running" / "done" / "stopped"
+  and a running interpreter is idle; `asyncStartSettled m u s` — the state `start()` hands to the run loop;
+* `selfSendsOf m u e s` — the number of events the machine sends itself while `e` is processed in `s`;
+  `asyncTrips` / `asyncSelfSends` — instrumented twins of `asyncDrain` (same recursion): the number of
+  iterations in which the chain breaker fired, and the number of events the machine sent itself;
+* `asyncLogQ` (from `Xsm/Model/Lifecycle.lean`) — the entries the run loop dequeues and processes.
 
-**Deviations from the property as worded** (the model agrees with the Python code on each; concrete
-inputs in §4 — they are reported as findings, the theorems state what does hold):
-1. async: when the chain breaker trips, the event just dequeued is dropped WHATEVER its origin; an
-   externally sent event queued behind an event whose single step raises more than `maxIterations`
-   events is discarded (`burst_drops_external_event`). Events sent to an idle interpreter are never
-   dropped (`asyncSend_at_idle_processes`), and queued external events are never purged
-   (`asyncStep_keeps_queued_external`).
-2. async: the counter is not reset when the last event of a chain fails (the reset sits inside the
-   `try`), so it leaks into later, unrelated chains, which are then cut although shorter than the bound
-   (`leaked_counter_cuts_short_chain`).
+**The last sentence of the property, async engine** (repaired in the library: F30, F31; the model follows):
+1. *"the bound never … discards events sent from outside"*: `external_event_is_processed`,
+   `external_events_never_discarded_async` — the breaker drops the event in hand only if it is itself
+   self-raised; every external event is received exactly once, in order. The former counterexample
+   `burst_drops_external_event` is replaced by `burst_keeps_external_event` (same witness).
+2. *"chains shorter than the bound run to their natural end"*: the counter is reset whenever a chain ends,
+   after a FAILED macrostep too (`counter_reset_when_chain_ends`, `counter_reset_after_failed_macrostep`),
+   every digested command leaves it at 0 (`async_run_quiet`), and a run of the loop in which the machine
+   sends itself at most `maxIterations` events is never cut (`short_chain_not_cut_async`). The former
+   counterexample `leaked_counter_cuts_short_chain` is replaced by `failed_chains_do_not_leak` (same witness).
+**Deviation that remains** (the model agrees with the Python code; finding F10):
 3. sync: the cut of `_process_event_queue` clears the whole queue, external events of the same burst
    included, and counts plain external events too (`send_events` with more events than the bound
    loses the excess): `drainLoop_exhausted_clears_queue`, `sync_burst_throttled`.
@@ -148,7 +156,7 @@ theorem drainLoop_not_cut_of_steps_lt (m : Machine) (u : UEnv) (n : Nat) (s : St
     deviation from the last sentence of the property (see `sync_burst_throttled` below); the model
     follows the code (`self._event_queue.clear()`). -/
 theorem drainLoop_exhausted_clears_queue (m : Machine) (u : UEnv) (s : St) : (drainLoop m u 0 s).queue = [] := by
-  rw [drainLoop_zero]
+  rw [Term.drainLoop_zero]
 
 /-- *"leaving a legal configuration and an interpreter that still answers the next event" (sync).* The
     cut changes nothing but the queue: configuration, status, error flag, context, history, trace are
@@ -157,7 +165,7 @@ theorem cut_keeps_running (m : Machine) (u : UEnv) (s : St) :
     drainLoop m u 0 s = { s with queue := [] } ∧
     (drainLoop m u 0 s).cfg = s.cfg ∧ (drainLoop m u 0 s).status = s.status ∧
       (drainLoop m u 0 s).err = s.err ∧ (drainLoop m u 0 s).ctx = s.ctx := by
-  rw [drainLoop_zero]; exact ⟨rfl, rfl, rfl, rfl, rfl⟩
+  rw [Term.drainLoop_zero]; exact ⟨rfl, rfl, rfl, rfl, rfl⟩
 
 /-- `fanM` (`E` raises `E` twice, bound 3), sync: `send(E)` processes exactly 3 events and is cut;
     it returns running, with an empty queue, no error; the next event is answered -/
@@ -228,10 +236,10 @@ theorem grow_iff (b : Bool) (s s' : St) :
     became "done". -/
 theorem asyncStep_measure (m : Machine) (u : UEnv) (s : St) (q : QEv) (rest : List QEv)
     (hq : s.queue = q :: rest) (hI : AInv s) :
-    AInv (asyncStep m u q.ev { s with queue := rest }) ∧
-    potential m.maxIterations (asyncStep m u q.ev { s with queue := rest }) < potential m.maxIterations s ∧
-    ((asyncStep m u q.ev { s with queue := rest }).status = s.status ∨
-      (asyncStep m u q.ev { s with queue := rest }).status = "done") :=
+    AInv (asyncStep m u q { s with queue := rest }) ∧
+    potential m.maxIterations (asyncStep m u q { s with queue := rest }) < potential m.maxIterations s ∧
+    ((asyncStep m u q { s with queue := rest }).status = s.status ∨
+      (asyncStep m u q { s with queue := rest }).status = "done") :=
   Term.asyncStep_measure m u s q rest hq hI
 
 theorem potential_bound (L : Nat) (s : St) : potential L s ≤ (cntExt s.queue + 1) * (L + 4) := potential_le L s
@@ -272,7 +280,7 @@ theorem asyncDrain_leaves_quiescent (m : Machine) (u : UEnv) (F : Nat) (s : St)
   asyncDrain_running_queue_nil m u F s hr
 
 /-- … with the counter within the bound (`Idle`), if it was so whenever the queue was empty at the
-    start. (It need NOT be `0`: see `leaked_counter_cuts_short_chain`.) -/
+    start (and at `0` if it was `0` then: `asyncDrain_leaves_quiet`, §4) -/
 theorem asyncDrain_leaves_idle (m : Machine) (u : UEnv) (F : Nat) (s : St)
     (h0 : s.queue = [] → s.raiseDepth ≤ m.maxIterations) (hr : (asyncDrain m u F s).status = "running") :
     Idle m (asyncDrain m u F s) :=
@@ -308,7 +316,7 @@ theorem asyncSend_fuel_irrelevant (m : Machine) (u : UEnv) (e : Ev) (s : St) (hI
 theorem asyncStart_terminates (m : Machine) (u : UEnv) (s : St) (hI : AInv s)
     (hn : cntExt (asyncStartSettled m u s).queue ≤ 9) :
     (asyncStart m u s).status = "running" ∨ (asyncStart m u s).status = "done" ∨
-      (asyncStart m u s).status = "stopped" := asyncStart_status m u s hI hn
+      (asyncStart m u s).status = "stopped" := Term.asyncStart_status m u s hI hn
 
 /-- **whole runs (async).** After `start()` and after each of any finite sequence of events, each sent
     when the previous one has been digested: the status is "running", "done" or "stopped" — never
@@ -338,7 +346,7 @@ example : let s := asyncSend fanM u0 (.user "E") (asyncStart fanM u0 {})
 /-- the invariant and the measure on a state of that run: `E` processed once, two `E` pending -/
 example : let s : St := { running with queue := [⟨.user "E", true⟩, ⟨.user "E", true⟩], raiseDepth := 2 }
     (decide (cntSelf s.queue ≤ s.raiseDepth), potential 3 s,
-     potential 3 (asyncStep fanM u0 (.user "E") { s with queue := [⟨.user "E", true⟩] })) = (true, 6, 5) := by
+     potential 3 (asyncStep fanM u0 ⟨.user "E", true⟩ { s with queue := [⟨.user "E", true⟩] })) = (true, 6, 5) := by
   decide
 /-- `reDoneM` (*"an onDone that re-completes its own state"*), bound 3: `start()` returns on both
     engines, running, in a legal configuration; the `onDone` transition ran 3 times (sync: cut by the
@@ -367,23 +375,51 @@ example : let s := asyncSend shortM u0 (.user "E") running
 
 /-! ## 4. events sent from outside -/
 
-/-- *The breaker and the queue.* When the counter exceeds the bound the dequeued event is dropped,
-    every queued self-raised event is purged and the counter reset — nothing else changes
-    (configuration, status, error flag, context …: the interpreter "still answers the next event"). -/
-theorem trip_keeps_running (m : Machine) (u : UEnv) (e : Ev) (s : St) (h : m.maxIterations < s.raiseDepth) :
-    asyncStep m u e s = { s with raiseDepth := 0, queue := s.queue.filter (fun q => !q.self) } :=
-  asyncStep_above_bound m u e s h
+/-- *The breaker and the queue.* When the counter exceeds the bound and the dequeued event is itself
+    SELF-RAISED it is dropped, every queued self-raised event is purged and the counter reset — nothing
+    else changes (configuration, status, error flag, context …: the interpreter "still answers the next
+    event"). -/
+theorem trip_keeps_running (m : Machine) (u : UEnv) (q : QEv) (s : St) (h : m.maxIterations < s.raiseDepth)
+    (hq : q.self = true) :
+    asyncStep m u q s = { s with raiseDepth := 0, queue := s.queue.filter (fun q => !q.self) } :=
+  asyncStep_above_bound_self m u q s h hq
+
+/-- … an EXTERNAL event dequeued then is not part of the runaway chain: same purge and reset, and the
+    event is processed like any other -/
+theorem trip_processes_external (m : Machine) (u : UEnv) (q : QEv) (s : St) (h : m.maxIterations < s.raiseDepth)
+    (hq : q.self = false) :
+    asyncStep m u q s =
+      asyncProcess m u q.ev { s with raiseDepth := 0, queue := s.queue.filter (fun q => !q.self) } :=
+  asyncStep_above_bound_ext m u q s h hq
 
 /-- below the bound the dequeued event is processed -/
-theorem below_bound_processes (m : Machine) (u : UEnv) (e : Ev) (s : St) (h : s.raiseDepth ≤ m.maxIterations) :
-    asyncStep m u e s = asyncProcess m u e s := asyncStep_below_bound m u e s h
+theorem below_bound_processes (m : Machine) (u : UEnv) (q : QEv) (s : St) (h : s.raiseDepth ≤ m.maxIterations) :
+    asyncStep m u q s = asyncProcess m u q.ev s := asyncStep_below_bound m u q s h
 
-/-- *"the bound never … discards events sent from outside", the part that holds (i):* whatever one
-    iteration does — process or trip — the external events that were QUEUED stay queued, in order. -/
-theorem asyncStep_keeps_queued_external (m : Machine) (u : UEnv) (e : Ev) (s0 : St) :
-    extOf (asyncStep m u e s0).queue = extOf s0.queue := Term.asyncStep_keeps_queued_external m u e s0
+/-- *"the bound never … discards events sent from outside" (i):* whatever one iteration does — process
+    or trip — the external events that were QUEUED stay queued, in order. -/
+theorem asyncStep_keeps_queued_external (m : Machine) (u : UEnv) (q : QEv) (s0 : St) :
+    extOf (asyncStep m u q s0).queue = extOf s0.queue := Term.asyncStep_keeps_queued_external m u q s0
 
-/-- *(ii):* an event sent to a running, idle interpreter — what `start()` and every digested `send`
+/-- *(ii):* the event IN HAND is never dropped either if it came from outside: the iteration that
+    dequeues an external event processes it, whatever the counter says (from the purged state,
+    `asyncBase`, if the breaker fired). -/
+theorem external_event_is_processed (m : Machine) (u : UEnv) (q : QEv) (s : St) (hq : q.self = false) :
+    asyncStep m u q s = asyncProcess m u q.ev (asyncBase m s) := asyncStep_external m u q s hq
+
+/-- *(iii):* **external events are never discarded by the async run loop.** For every machine, user code,
+    state, counter and fuel: the external events the loop received (`asyncLogQ`: dequeued AND processed),
+    followed by those still queued when it returns, are exactly the external events queued at the start —
+    none lost, none duplicated, order kept; and a loop that returns "running" has received them all. -/
+theorem external_events_never_discarded_async (m : Machine) (u : UEnv) (F : Nat) (s : St) :
+    extOf (asyncLogQ m u F s) ++ extOf (asyncDrain m u F s).queue = extOf s.queue ∧
+    ((asyncDrain m u F s).status = "running" → extOf (asyncLogQ m u F s) = extOf s.queue) := by
+  have h := async_external_split m u F s
+  refine ⟨h, fun hr => ?_⟩
+  rw [asyncDrain_running_queue_nil m u F s hr] at h
+  simpa [extOf] using h
+
+/-- *(iv):* an event sent to a running, idle interpreter — what `start()` and every digested `send`
     leave behind, see `async_run_never_hangs` — is processed, never dropped. -/
 theorem asyncSend_at_idle_processes (m : Machine) (u : UEnv) (e : Ev) (s : St) (hs : s.status = "running")
     (hi : Idle m s) :
@@ -391,27 +427,105 @@ theorem asyncSend_at_idle_processes (m : Machine) (u : UEnv) (e : Ev) (s : St) (
       asyncDrain m u (10 * m.maxIterations + 49) (asyncProcess m u e { s with queue := [] }) :=
   Term.asyncSend_at_idle_processes m u e s hs hi
 
-/-- **Deviation 1 (model = code).** `burstM`, bound 3: `E` raises `R` four times in one step. With `E`
-    and `X` both sent before the loop runs (two `await send(…)` in a row), `X` — an external event — is
-    dequeued with the counter at 4 > 3 and DROPPED: `sawX` never runs. Sent in the other order both
-    are processed. -/
-theorem burst_drops_external_event :
+/-- **The former Deviation 1 (F30), repaired outcome.** `burstM`, bound 3: `E` raises `R` four times in one
+    step. With `E` and `X` both sent before the loop runs (two `await send(…)` in a row), `X` — an external
+    event — is dequeued with the counter at 4 > 3: the breaker fires, the four `R`s are purged, and `X` IS
+    PROCESSED (`sawX` runs once; before the repair it was dropped: 0). Sent in the other order both are
+    processed, as before. -/
+theorem burst_keeps_external_event :
     count "sawX@X" (asyncDrain burstM u0 (asyncFuel burstM)
+      { running with queue := [⟨.user "E", false⟩, ⟨.user "X", false⟩] }) = 1 ∧
+    count "sawR@R" (asyncDrain burstM u0 (asyncFuel burstM)
       { running with queue := [⟨.user "E", false⟩, ⟨.user "X", false⟩] }) = 0 ∧
+    asyncTrips burstM u0 (asyncFuel burstM)
+      { running with queue := [⟨.user "E", false⟩, ⟨.user "X", false⟩] } = 1 ∧
     count "sawX@X" (asyncDrain burstM u0 (asyncFuel burstM)
       { running with queue := [⟨.user "X", false⟩, ⟨.user "E", false⟩] }) = 1 := by decide
 
-/-- **Deviation 2 (model = code).** `errChainM`, bound 3: `E` raises `R`; handling `R` runs `sawR` and
-    then fails on a missing action, so the counter is not reset. After three such (independent,
-    length-1) chains the counter is 3 with an empty queue; the fourth chain is cut: its `R` is dropped
-    (`sawR` ran 3 times, not 4) although the chain is shorter than the bound. -/
-theorem leaked_counter_cuts_short_chain :
+/-! ### chains shorter than the bound run to their natural end -/
+
+/-- **the chain counter is reset whenever a chain ends.** After an event has been processed —
+    successfully or NOT — with the machine still running and no self-raised event queued, the counter
+    is 0: nothing leaks into the next chain. -/
+theorem counter_reset_when_chain_ends (m : Machine) (u : UEnv) (e : Ev) (s : St)
+    (hr : (asyncProcess m u e s).status = "running") (hq : cntSelf (asyncProcess m u e s).queue = 0) :
+    (asyncProcess m u e s).raiseDepth = 0 := asyncProcess_counter_zero m u e s hr hq
+
+/-- … spelled out for a macrostep that FAILED (the case the reset used to skip, F31): the failure is
+    logged and counted, the error flag cleared, and the counter is reset all the same -/
+theorem counter_reset_after_failed_macrostep (m : Machine) (u : UEnv) (e : Ev) (s : St)
+    (hfail : (asyncProcessed m u e s).err ≠ none)
+    (hr : (asyncProcess m u e s).status = "running") (hq : cntSelf (asyncProcess m u e s).queue = 0) :
+    (asyncProcess m u e s).raiseDepth = 0 ∧ (asyncProcess m u e s).errors = s.errors + 1 ∧
+      (asyncProcess m u e s).err = none := by
+  refine ⟨asyncProcess_counter_zero m u e s hr hq, ?_, asyncProcess_err_none m u e s⟩
+  rw [asyncProcess_failed m u e s hfail, (asyncChainEnd_fields _ _).2.2.2.2.2.2.2]
+
+/-- the same for a whole iteration of the loop, tripping or not -/
+theorem asyncStep_counter_reset (m : Machine) (u : UEnv) (q : QEv) (s : St)
+    (hr : (asyncStep m u q s).status = "running") (hq : cntSelf (asyncStep m u q s).queue = 0) :
+    (asyncStep m u q s).raiseDepth = 0 := asyncStep_counter_zero m u q s hr hq
+
+/-- *What the loop leaves behind, sharpened:* a run of the loop that returns "running" has emptied the
+    queue and left the counter at 0 — whatever happened on the way, failed macrosteps included — if
+    the counter was 0 whenever the queue was empty at the start. -/
+theorem asyncDrain_leaves_quiet (m : Machine) (u : UEnv) (F : Nat) (s : St)
+    (h0 : s.queue = [] → s.raiseDepth = 0) (hr : (asyncDrain m u F s).status = "running") :
+    Quiet (asyncDrain m u F s) :=
+  ⟨asyncDrain_running_queue_nil m u F s hr, asyncDrain_counter_zero m u F s h0 hr⟩
+
+/-- **whole runs: every command starts with the counter at 0.** After `start()` and after each of any
+    finite sequence of events, each sent when the previous one has been digested, a running interpreter
+    has an empty queue and `raiseDepth = 0` (no hypothesis on the machine or on user code: macrosteps may
+    fail, chains may have been cut). -/
+theorem async_run_quiet (m : Machine) (u : UEnv) (evs : List Ev)
+    (hr : (evs.foldl (cmd .async m u) (asyncStart m u {})).status = "running") :
+    (evs.foldl (cmd .async m u) (asyncStart m u {})).queue = [] ∧
+    (evs.foldl (cmd .async m u) (asyncStart m u {})).raiseDepth = 0 := Term.async_run_quiet m u evs hr
+
+/-- **a chain of at most `maxIterations` self-raised events, started from a state with the counter at 0,
+    is never cut** (the formal counterpart of the monitor `oracles.c13_short_chain_not_cut`; general form:
+    the counter at the start plus the number of events the machine sends itself during this run of the
+    loop — `asyncSelfSends`, over all events processed, external or raised — within the bound). The chain
+    breaker does not fire in any iteration (`asyncTrips = 0`), for every fuel. -/
+theorem short_chain_not_cut_async (m : Machine) (u : UEnv) (F : Nat) (s : St)
+    (h : s.raiseDepth + asyncSelfSends m u F s ≤ m.maxIterations) : asyncTrips m u F s = 0 :=
+  short_chain_not_cut m u F s h
+
+/-- … for one `send` to a quiet interpreter (what every command of a run finds, `async_run_quiet`) -/
+theorem short_chain_not_cut_send (m : Machine) (u : UEnv) (e : Ev) (s : St) (hq : Quiet s)
+    (h : asyncSelfSends m u (asyncFuel m) { s with queue := s.queue ++ [⟨e, false⟩] } ≤ m.maxIterations) :
+    asyncTrips m u (asyncFuel m) { s with queue := s.queue ++ [⟨e, false⟩] } = 0 := by
+  apply short_chain_not_cut
+  have : ({ s with queue := s.queue ++ [⟨e, false⟩] } : St).raiseDepth = 0 := hq.2
+  omega
+
+/-- when the breaker never fires every dequeued event is received: nothing at all is dropped -/
+theorem no_trip_receives_everything (m : Machine) (q : QEv) (s : St)
+    (h : ¬ s.raiseDepth > m.maxIterations) : asyncReceives m q s = true :=
+  (asyncReceives_eq_true m q s).2 (fun hh => h hh.1)
+
+/-- `shortM` (`E` raises `R` once, bound 3): one self-send, no trip; `fanM` (fan-out 2, bound 3): the
+    machine sends itself 4 events, more than the bound — the hypothesis fails, and the breaker fires once -/
+example : (asyncSelfSends shortM u0 (asyncFuel shortM) { running with queue := [⟨.user "E", false⟩] },
+    asyncTrips shortM u0 (asyncFuel shortM) { running with queue := [⟨.user "E", false⟩] }) = (1, 0) := by decide
+example : (asyncSelfSends fanM u0 (asyncFuel fanM) { running with queue := [⟨.user "E", false⟩] },
+    asyncTrips fanM u0 (asyncFuel fanM) { running with queue := [⟨.user "E", false⟩] }) = (4, 1) := by decide
+
+/-- **The former Deviation 2 (F31), repaired outcome.** `errChainM`, bound 3: `E` raises `R`; handling `R`
+    runs `sawR` and then fails on a missing action. The counter IS reset after the failed macrostep: after
+    three such (independent, length-1) chains it stands at 0 with an empty queue (before the repair: 3),
+    and the fourth chain runs to its natural end: its `R` is received, `sawR` ran 4 times (before: 3, the
+    fourth `R` was dropped by the breaker although the chain is shorter than the bound). -/
+theorem failed_chains_do_not_leak :
     let s3 := [Ev.user "E", .user "E", .user "E"].foldl (cmd .async errChainM u0) running
     let s4 := cmd .async errChainM u0 s3 (.user "E")
-    (s3.status, evTypes s3, s3.raiseDepth, count "sawR@R" s3) = ("running", [], 3, 3) ∧
-    (s4.status, evTypes s4, s4.raiseDepth, count "sawR@R" s4) = ("running", [], 0, 3) := by decide
+    (s3.status, evTypes s3, s3.raiseDepth, count "sawR@R" s3) = ("running", [], 0, 3) ∧
+    (s4.status, evTypes s4, s4.raiseDepth, count "sawR@R" s4) = ("running", [], 0, 4) ∧
+    asyncTrips errChainM u0 (asyncFuel errChainM) { s3 with err := none, queue := [⟨.user "E", false⟩] } = 0 := by
+  decide
 
-/-- **Deviation 3 (model = code), sync.** The counter of `_process_event_queue` counts every dequeued
+/-- **Deviation 3 (model = code), sync; finding F10, open.** The counter of `_process_event_queue` counts every dequeued
     event, external ones too: five plain external events queued by one call (`send_events`) with
     bound 3 — no chain at all — lose the last two. -/
 theorem sync_burst_throttled :
